@@ -583,6 +583,9 @@ func c09Fixed(cfg Config, res *Result) {
 		{"{% for f in floats %}{% if f %}T{% else %}F{% endif %}{% endfor %}", "TTFTTTT"},
 		{"{% if 0 %}A{% elif half %}B{% else %}C{% endif %}|{% firstof 0 half 7 %}|{% firstof 0.0 \"\" tiny %}", "B|0.500000|0.001000"},
 		{"{% if not half %}n{% else %}y{% endif %}{% if half and tiny %}y{% endif %}{% if 0.0 or tiny %}y{% endif %}", "yyy"},
+		// firstof picks the first true argument with autoescaping off as well
+		{"{% autoescape off %}{% firstof 0 half 7 %}|{% firstof nosuch \"\" 0 %}|{% firstof 0 \"\" \"x\" %}|{% firstof nl 0.0 tiny half %}{% endautoescape %}", "0.500000||x|0.001000"},
+		{"{% autoescape off %}{% for x in dup %}{% firstof 0 x %}{% endfor %}{% endautoescape %}", "11222"},
 		// ifchanged: the else branch without watched expressions; a watched value that stays nothing
 		{"{% for x in dup %}{% ifchanged %}{{ x }}{% else %}={% endifchanged %}{% endfor %}", "1=2=="},
 		{"{% for x in dup %}{% ifchanged nosuch %}C{% else %}S{% endifchanged %}{% endfor %}", "CSSSS"},
